@@ -27,6 +27,9 @@ def run(ctx):
     d.curvature(rc, "K-range", "K1")
     d.dfdt(rc, "K-range", "K2", "K5")
     d.menger(rc, "K-range", "K3")
+    from . import c17
+    from .common import borrow
+    borrow(rc, "K3", c17._sec_menger)                            # the criterion itself: menger_curvature is the Menger curvature
     d.lmethod(rc, "K-range", "K4", "K5")
     res.assumptions += ["uts.gradient.cfd / csd return one value per sample; uts.thresholding.isodata returns a scalar (dependency contracts)",
                         "n >= 3 (n >= 5 for the L-method)"]
